@@ -170,8 +170,13 @@ def parse_vspec(path):
                 raise SliceError('%s: bad decl-line: %s' % (path, rest))
             spec['decls'].append(m.group(1).replace('\\"', '"').replace('\\\\', '\\'))
             cur = None
-        elif key in ('sub', 'sig', 'subw'):
-            m = re.match(r'\s*(?:(R\d+[a-z]?)\s+)?"((?:[^"\\]|\\.)*)"\s*=>\s*"((?:[^"\\]|\\.)*)"\s*$', rest)
+        elif key in ('sub', 'sig', 'subw', 'sub!'):
+            # `sub!`: an essential substitution -- the replaced expression is ACCEPTED by the verifier but uninterpreted there (floating-point
+            # comparisons and casts), so when its anchor is lost the unit's failing obligations are undecided, not violations
+            if key == 'sub!':
+                key = 'sub'
+                rest = re.sub(r'^(\s*)(R\d+[a-z]?)', r'\1\2!', rest, count=1)
+            m = re.match(r'\s*(?:(R\d+[a-z]?!?)\s+)?"((?:[^"\\]|\\.)*)"\s*=>\s*"((?:[^"\\]|\\.)*)"\s*$', rest)
             if not m:
                 raise SliceError('%s: bad %s-line: %s' % (path, key, rest))
             un = lambda s: s.replace('\\"', '"').replace('\\n', '\n').replace('\\\\', '\\')
@@ -820,6 +825,8 @@ class Weaver:
                         mt.replace(fz[0], fz[0] + fz[1], new_)
                         continue
                     log.append((rid, 'ANCHOR LOST: %s' % norm(old[1])))
+                    if rid.endswith('!'):
+                        lost.append('essential substitution %r (the expression it replaces is uninterpreted for the verifier)' % norm(old[1]))
                     continue
                 for m_ in reversed(ms):
                     mt.replace(m_.start(), m_.end(), new)
@@ -836,6 +843,8 @@ class Weaver:
                     mt.replace(fz[0], fz[0] + fz[1], new_)
                     continue
                 log.append((rid, 'ANCHOR LOST: %s' % norm(old)))
+                if rid.endswith('!'):
+                    lost.append('essential substitution %r (the expression it replaces is uninterpreted for the verifier)' % norm(old))
                 continue
             pos = 0
             while True:
